@@ -386,6 +386,7 @@ type half struct {
 	reset *StreamErrorCode // writer cancelled
 	stop  *StreamErrorCode // reader cancelled (STOP_SENDING)
 	total int64            // bytes ever written
+	all   []byte           // everything ever written (kept while small, for oracles)
 }
 
 // Stream mirrors quic.Stream.
@@ -408,6 +409,8 @@ type Stream struct {
 	Meta any
 	// ChunkChoice makes the size of reads an environment choice (all available, or 1 byte).
 	ChunkChoice bool
+	// EOFWithData makes "last bytes returned together with io.EOF" an environment choice.
+	EOFWithData bool
 	ReadTotal   int64
 	Accepted    bool
 }
@@ -439,6 +442,9 @@ func (s *Stream) Other() *Stream           { return s.other }
 
 // Unread returns the bytes written by the peer and not yet read (harness-side inspection).
 func (s *Stream) Unread() []byte { return s.in.buf }
+
+// WrittenBytes returns everything ever written on this side (first MiB).
+func (s *Stream) WrittenBytes() []byte { return s.out.all }
 
 // Written returns the number of bytes ever written on this side.
 func (s *Stream) WrittenTotal() int64 { return s.out.total }
@@ -476,6 +482,10 @@ func (s *Stream) Read(p []byte) (int, error) {
 	copy(p, s.in.buf[:n])
 	s.in.buf = s.in.buf[n:]
 	s.ReadTotal += int64(n)
+	if len(s.in.buf) == 0 && s.in.fin && s.EOFWithData && c.e.Choose(2, vsched.KEnv, "quic-eof-with-data") == 1 {
+		// quic-go may deliver the last bytes together with io.EOF
+		return n, io.EOF
+	}
 	return n, nil
 }
 
@@ -545,6 +555,9 @@ func (s *Stream) Write(p []byte) (int, error) {
 		}
 		s.out.buf = append(s.out.buf, p[written:written+n]...)
 		s.out.total += int64(n)
+		if len(s.out.all) < 1<<20 {
+			s.out.all = append(s.out.all, p[written:written+n]...)
+		}
 		written += n
 		if written == len(p) {
 			return written, nil
